@@ -22,11 +22,12 @@ import (
 // ---- part 1: enumeration of every digit of chosen windows at chosen basis positions
 
 type c05DigitCase struct {
-	Pos    int    `json:"pos"`    // basis position i
-	Window int    `json:"window"` // window index k (of width 16 for i<5, 8 otherwise)
-	Digit  int    `json:"digit"`  // window value v
-	Carry  bool   `json:"carry"`  // window k-1 set to 2^w-1 so that a carry arrives
-	Len    int    `json:"len"`    // vector length (>= pos+1); 0 means pos+1
+	Pos    int    `json:"pos"`             // basis position i
+	Window int    `json:"window"`          // window index k (of width 16 for i<5, 8 otherwise)
+	Digit  int    `json:"digit"`           // window value v
+	Carry  bool   `json:"carry"`           // window k-1 set to 2^w-1 so that a carry arrives
+	Chain  bool   `json:"chain,omitempty"` // ALL windows below k set to 2^w-1: the carry ripples through every lower window and limb
+	Len    int    `json:"len"`             // vector length (>= pos+1); 0 means pos+1
 	Note   string `json:"note,omitempty"`
 }
 
@@ -40,7 +41,9 @@ func winWidth(pos int) int {
 func c05Scalar(c c05DigitCase) *big.Int {
 	w := winWidth(c.Pos)
 	s := new(big.Int).Lsh(big.NewInt(int64(c.Digit)), uint(w*c.Window))
-	if c.Carry && c.Window > 0 {
+	if c.Chain && c.Window > 0 {
+		s.Add(s, new(big.Int).Sub(new(big.Int).Lsh(big.NewInt(1), uint(w*c.Window)), big.NewInt(1)))
+	} else if c.Carry && c.Window > 0 {
 		m := new(big.Int).Sub(new(big.Int).Lsh(big.NewInt(1), uint(w)), big.NewInt(1))
 		s.Add(s, m.Lsh(m, uint(w*(c.Window-1))))
 	}
@@ -77,17 +80,20 @@ var c05Digit = hx.NewPart("C05", "digit", func(t *rapid.T) c05DigitCase {
 }, evalC05Digit)
 
 // walkUnit enumerates every digit of window k at position pos for one carry-in value.
-func walkUnit(s *hx.Session, pos, k int, carry bool) {
-	if carry && k == 0 {
+func walkUnit(s *hx.Session, pos, k int, carry, chain bool) {
+	if (carry || chain) && k == 0 {
 		return
+	}
+	if chain && k == 1 {
+		return // identical to the plain carry-in case
 	}
 	w := winWidth(pos)
 	cfg := Cfg()
 	Gi := hx.G.CRS()[pos]
 	step := hx.G.Mul(Gi, new(big.Int).Lsh(big.NewInt(1), uint(w*k)))
 	base := hx.G.Identity()
-	if carry {
-		base = hx.G.Mul(Gi, c05Scalar(c05DigitCase{Pos: pos, Window: k, Digit: 0, Carry: true}))
+	if carry || chain {
+		base = hx.G.Mul(Gi, c05Scalar(c05DigitCase{Pos: pos, Window: k, Digit: 0, Carry: carry, Chain: chain}))
 	}
 	cur := base
 	half := 1 << (w - 1)
@@ -96,7 +102,7 @@ func walkUnit(s *hx.Session, pos, k int, carry bool) {
 	checks, nt := 0, 0
 	for v := 1; v < 1<<w; v++ {
 		cur = hx.G.Add(cur, step)
-		c := c05DigitCase{Pos: pos, Window: k, Digit: v, Carry: carry}
+		c := c05DigitCase{Pos: pos, Window: k, Digit: v, Carry: carry, Chain: chain}
 		sc := c05Scalar(c)
 		if sc.Cmp(ref.R) >= 0 {
 			break
@@ -108,7 +114,7 @@ func walkUnit(s *hx.Session, pos, k int, carry bool) {
 			return
 		}
 		checks++
-		if v >= half || carry {
+		if v >= half || carry || chain {
 			nt++
 		}
 		ok := hx.G.EqualProj(hx.FromImpl(&got), cur)
@@ -122,7 +128,7 @@ func walkUnit(s *hx.Session, pos, k int, carry bool) {
 		if !ok {
 			c.Note = "enumeration"
 			s.Violation("digit", c, fmt.Errorf("Commit of the vector with only v[%d] = %s (window %d of width %d, digit %d, carry-in %v) is not v*G_%d",
-				pos, sc.Text(16), k, w, v, carry, pos))
+				pos, sc.Text(16), k, w, v, carry || chain, pos))
 			return
 		}
 	}
@@ -131,6 +137,9 @@ func walkUnit(s *hx.Session, pos, k int, carry bool) {
 	rec.LabelN(fmt.Sprintf("digits/w=%d", w), checks)
 	if carry {
 		rec.LabelN("digits/with_carry_in", checks)
+	}
+	if chain {
+		rec.LabelN("digits/with_carry_chain_from_window_0", checks)
 	}
 	if k == 256/w-1 {
 		rec.LabelN("digits/top_window", checks)
@@ -341,20 +350,20 @@ func TestC05(t *testing.T) {
 		if !hx.Sharded(u) {
 			continue
 		}
-		for _, carry := range []bool{false, true} {
+		for mode := 0; mode < 3; mode++ { // no carry-in | carry from the window below | carry chain from window 0
 			if s.Failed() || s.Aborted() {
 				complete = false
 				break
 			}
-			un, carry := un, carry
-			if !s.Guard(func() { walkUnit(s, un.pos, un.k, carry) }) {
+			un, mode := un, mode
+			if !s.Guard(func() { walkUnit(s, un.pos, un.k, mode == 1, mode == 2) }) {
 				complete = false
 			}
 		}
 	}
 	s.Rec.Extra("digit_units_enumerated", len(units))
 	s.Rec.Extra("exhaustive", complete && !s.Failed())
-	s.Rec.Extra("exhaustive_subdomain", "every (basis position, window, digit 1..2^w-1, carry-in) single-coefficient vector with scalar < r")
+	s.Rec.Extra("exhaustive_subdomain", "every (basis position, window, digit 1..2^w-1, carry-in mode {none, from the window below, chain of 2^w-1 windows from window 0}) single-coefficient vector with scalar < r")
 	c05Digit.Run(s, 0) // corpus replay only
 	c05Vec.Run(s, hx.PerShard(hx.Pick(960, 16000)))
 }
